@@ -28,7 +28,7 @@ TECHNIQUE = "runtime monitoring: recorded symbolic formulas of every template re
 
 def gen_cases(tier, seed):
     rnd = random.Random(f"C07-{seed}")
-    n = 24 if tier == "quick" else 300
+    n = 24 if tier == "quick" else 240
     cases = []
     for i in range(n):
         d = gs.gen_spec(rnd, rnd.choice(["mm1", "mm1", "mv1", "ew1"]), levels=rnd.choice([2, 2, 3]),
